@@ -71,6 +71,17 @@ func genC07(t *rapid.T) c07Case {
 	n := rapid.IntRange(8, max).Draw(t, "n")
 	kinds := []string{"block", "block", "block", "block", "block", "block", "deposit", "send", "batch", "bridgecall", "bridgecall", "confirm", "confirm", "proposal", "vote", "govoracles", "adddelegate", "unbond", "delegate", "absent", "convert", "ethtx", "ethtx", "cosmostx", "valvote", "migrate"}
 	for i := 0; i < n; i++ {
+		if rapid.IntRange(0, 14).Draw(t, "quiet") == 0 {
+			// a quiet stretch: every oracle confirms everything, then one stake grows by a little (a small
+			// power difference with nobody slashed), then blocks pass
+			ch := rapid.IntRange(0, 1).Draw(t, "qchain")
+			for o := 0; o < c.NumOracles; o++ {
+				c.Ops = append(c.Ops, c07Op{Kind: "confirm", Chain: ch, O: o, What: 0})
+			}
+			c.Ops = append(c.Ops, c07Op{Kind: "adddelegate", Chain: ch, O: rapid.IntRange(0, 3).Draw(t, "qo"), Amt: rapid.SampledFrom([]int64{100, 100, 200, 300, 1000}).Draw(t, "qamt")},
+				c07Op{Kind: "block"}, c07Op{Kind: "block"})
+			continue
+		}
 		c.Ops = append(c.Ops, c07Op{Kind: rapid.SampledFrom(kinds).Draw(t, "kind"), Chain: rapid.IntRange(0, 1).Draw(t, "chain"), U: rapid.IntRange(0, 2).Draw(t, "u"),
 			O: rapid.IntRange(0, 3).Draw(t, "o"), Tok: rapid.IntRange(0, 2).Draw(t, "tok"), Amt: rapid.Int64Range(1, 3000).Draw(t, "amt"), What: rapid.IntRange(0, 9).Draw(t, "what"),
 			Dt: rapid.IntRange(0, len(c07Dts)-1).Draw(t, "dt"), Mask: rapid.Uint32Range(1, 15).Draw(t, "mask")})
